@@ -273,6 +273,24 @@ fmt_all(void) {
 		x.a[0] = (uint8_t)OCT[i / 729]; x.a[1] = (uint8_t)OCT[(i / 81) % 9]; x.a[2] = (uint8_t)OCT[(i / 9) % 9]; x.a[3] = (uint8_t)OCT[i % 9];
 		fmt_with_ports(&x);
 	}
+	/* UNIX paths: "/a", "./a" and every length up to the longest that fits sun_path */
+	for (v = 0; v < 2; v ++) {
+		for (n = (size_t)(v ? 3 : 1); n <= SUN_PATH_MAX - 1; n ++) {
+			memset(&x, 0, sizeof(x)); x.fam = AF_UNIX;
+			memset(x.path, 'a', n);
+			if (v) { x.path[0] = '.'; x.path[1] = '/'; } else x.path[0] = '/';
+			if (n > 4) x.path[n / 2] = '/';
+			fmt_case(0, &x); fmt_case(1, &x);
+		}
+	}
+	/* thorough: all 65536 ports on addresses of every IPv4 text length */
+	if (vh_thorough) {
+		static const char *A4[9] = { "0.0.0.0", "1.1.1.10", "1.1.10.10", "1.10.10.10", "10.10.10.10", "10.10.10.100", "10.10.100.100", "10.100.100.100", "255.255.255.255" };
+		for (k = 0; k < 9; k ++) {
+			memset(&x, 0, sizeof(x)); x.fam = AF_INET; inet_pton(AF_INET, A4[k], x.a);
+			for (i = 0; i < 65536; i ++) { x.port = (uint16_t)i; fmt_case(1, &x); }
+		}
+	}
 	/* IPv6: all 4^8 group vectors (contains every zero-run shape: start x length x second run);
 	 * thorough: 5^8 with a two-digit group as well */
 	memset(&x, 0, sizeof(x)); x.fam = AF_INET6;
@@ -297,24 +315,9 @@ fmt_all(void) {
 			fmt_with_ports(&x);
 		}
 	}
-	/* UNIX paths: "/a", "./a" and every length up to the longest that fits sun_path */
-	for (v = 0; v < 2; v ++) {
-		for (n = (size_t)(v ? 3 : 1); n <= SUN_PATH_MAX - 1; n ++) {
-			memset(&x, 0, sizeof(x)); x.fam = AF_UNIX;
-			memset(x.path, 'a', n);
-			if (v) { x.path[0] = '.'; x.path[1] = '/'; } else x.path[0] = '/';
-			if (n > 4) x.path[n / 2] = '/';
-			fmt_case(0, &x); fmt_case(1, &x);
-		}
-	}
-	/* thorough: all 65536 ports on addresses of every IPv4 text length and a few IPv6 ones */
+	/* thorough: all 65536 ports on a few IPv6 addresses */
 	if (vh_thorough) {
-		static const char *A4[9] = { "0.0.0.0", "1.1.1.10", "1.1.10.10", "1.10.10.10", "10.10.10.10", "10.10.10.100", "10.10.100.100", "10.100.100.100", "255.255.255.255" };
 		static const char *A6[7] = { "::", "::1", "1::", "db8::1", "1:2:3:4:5:6:7:8", "2001:db8:ffff:ffff:ffff:ffff:ffff:ffff", "::ffff:255.255.255.255" };
-		for (k = 0; k < 9; k ++) {
-			memset(&x, 0, sizeof(x)); x.fam = AF_INET; inet_pton(AF_INET, A4[k], x.a);
-			for (i = 0; i < 65536; i ++) { x.port = (uint16_t)i; fmt_case(1, &x); }
-		}
 		for (k = 0; k < 7; k ++) {
 			memset(&x, 0, sizeof(x)); x.fam = AF_INET6; inet_pton(AF_INET6, A6[k], x.a);
 			for (i = 0; i < 65536; i ++) { x.port = (uint16_t)i; fmt_case(1, &x); }
@@ -562,7 +565,9 @@ parse_all(void) {
 int
 main(int argc, char **argv) {
 	vh_init(argc, argv);
-	fmt_all();
+	/* parsers first, IPv6 formatting last: a defect that makes every IPv6 case raise ASan reports
+	 * (vh.h stops a shard after 20000 reports) must not hide the other sections */
 	parse_all();
+	fmt_all();
 	return (vh_finish());
 }
